@@ -1,5 +1,7 @@
 //! Command execution
 
+#[cfg(feature = "verif-hooks")]
+use crate::verif::tokio_shim as tokio;
 use std::{
     borrow::Cow,
     ffi::OsStr,
@@ -769,16 +771,24 @@ pub(crate) async fn invoke_command_in_subshell_and_get_output(
     params.process_group_policy = ProcessGroupPolicy::SameProcessGroup;
 
     // Set up pipe so we can read the output.
+    #[cfg(not(feature = "verif-hooks"))]
     let (reader, writer) = std::io::pipe()?;
+    #[cfg(feature = "verif-hooks")]
+    let (reader, writer) = crate::verif::pipe("cmdsubst")?;
     params.set_fd(OpenFiles::STDOUT_FD, writer.into());
 
+    #[cfg(not(feature = "verif-hooks"))]
     let mut async_reader = sys::async_pipe::AsyncPipeReader::new(reader)?;
+    #[cfg(feature = "verif-hooks")]
+    let mut async_reader = crate::verif::AsyncReader::new(reader)?;
 
     let cmd_join_handle = tokio::spawn(run_substitution_command(subshell, params, s));
 
     let output_str = async_reader.read_to_string().await?;
 
     // Now observe the command's completion.
+    #[cfg(feature = "verif-hooks")]
+    crate::verif::before_join(&cmd_join_handle);
     let run_result = cmd_join_handle.await?;
     let cmd_result = run_result?;
 
